@@ -98,6 +98,9 @@ func (eval Evaluator) Add(op0 *rlwe.Ciphertext, op1 rlwe.Operand, opOut *rlwe.Ci
 			for i := 1; i < len(opOut.Value); i++ {
 				opOut.Value[i].CopyLvl(level, op0.Value[i]) // Resize step ensures identical size
 			}
+
+			// The result has the scale (and the other metadata) of op0
+			*opOut.MetaData = *op0.MetaData
 		}
 
 	case []complex128, []float64, []*big.Float, []*bignum.Complex:
@@ -194,6 +197,9 @@ func (eval Evaluator) Sub(op0 *rlwe.Ciphertext, op1 rlwe.Operand, opOut *rlwe.Ci
 			for i := 1; i < len(opOut.Value); i++ {
 				opOut.Value[i].CopyLvl(level, op0.Value[i]) // Resize step ensures identical size
 			}
+
+			// The result has the scale (and the other metadata) of op0
+			*opOut.MetaData = *op0.MetaData
 		}
 
 	case []complex128, []float64, []*big.Float, []*bignum.Complex:
